@@ -28,6 +28,7 @@ type Obs struct {
 	Panic      string // recovered Go panic (message + borno frames)
 	Budget     string // step budget exhausted: eval / lex / parse
 	TimedOut   bool   // wall-clock watchdog (CLI only): inconclusive
+	CPUSec     float64 // CLI only: user+system CPU time the child consumed
 	Events     []vhook.Event
 	Steps      int64
 	LexSteps   int64
